@@ -104,4 +104,7 @@ def run(chk, tier):
         rd = [x for c, x in H.calls(body) if c and c.endswith("read_dataset_with_ts") and "instance_buffer" in H.show(x[3][0], 4)]
         ok = len(rd) == 1 and "instance_buffer" in H.show(rd[0][3][0], 4) and "get(ts)" in H.show(rd[0][3][1], 5)
         chk.expect(ok, "meta-from-negotiation", mod, "dataset-read-with-negotiated-ts", "read_dataset_with_ts(instance_buffer, registry.get(ts))", [H.show(x, 5)[:120] for x in rd])
+    # "each stored file contains the received data set": the sink replaces whatever was stored under that name before
+    from . import shared
+    shared.file_create_truncates(chk, fx, "stored-file-replaced")
     chk.undecided.append("content equality of the stored file with the received data set; reassembly of fragments (C26/C27)")
